@@ -2,6 +2,7 @@ package checks
 
 import (
 	"fmt"
+	"strings"
 
 	"verif/internal/eng"
 )
@@ -156,6 +157,18 @@ func runC13(w *eng.W) {
 	canon := 3
 	if !q {
 		allForms, canon = 3, 4
+	}
+	// texts that look like values of another kind must stay texts
+	for _, t := range []string{"2024-02-29T12:30:00Z", "2024-02-29T12:30:00+08:00", "2024-02-29T12:30:00.123456789Z", "2024-02-29", "12:30:00", "2024-02-29 12:30:00", "0001-01-01T00:00:00Z",
+		"123", "-1.5", "1e5", "0x1F", "NaN", "Infinity", "-Infinity", "1_000", "007", ".5", "true", "false", "null", "undefined", "this", "typeof x", "$a", "ctx",
+		"{\"a\":1}", "[1,2]", "()", "1+1", "a.b", "f(x)", "1h30m", "P1D", "550e8400-e29b-41d4-a716-446655440000", "http://a/b?c=d#e", "a@b.c", "aGVsbG8=", "#ff0000", "%d %s", "${x}", "{{x}}", "<b>", "&amp;", "C:\\dir", "/*x*/", "//x", "--x", "'; drop", "Asia/Shanghai", "UTC", "Local", "+08:00"} {
+		if !w.Take() {
+			continue
+		}
+		for _, q := range []string{"'", "\""} {
+			esc := strings.Replace(strings.Replace(t, "\\", "\\\\", -1), q, "\\"+q, -1)
+			emit("look-alike", StrCase{Lit: Bytes(q + esc + q), Want: Bytes(t)})
+		}
 	}
 	// a rejected text parsed immediately before must not influence the next literal
 	poisons := []string{"'\\xzz'", "\"\\uzzzz\"", "'C:\\users\\xavier'", "'abc", "'a\nb'", "\"\\xg1\"", "(1 2", "a b", "'\\u12", "'tail\\", "'p' + 'q\\xhh", "0x1 'k'"}
